@@ -210,7 +210,7 @@ func TestC17_Configurations(t *testing.T) {
 	c := harness.New(t, "C17", "configurations",
 		"all combinations of {debug on, off} x {no custom error page, a working one, one that does not exist, one that fails at run time} x generated pages {succeeding (plain, with layout and component); failing at run time after 1..4 uniquely marked chunks at top level, inside a loop pass, inside a layout's insert, inside a component argument, inside a slot body; not existing} x data: success -> nil and body == String(); failure -> non-nil error, no marker of the failed page in the body, body == custom page (working one, debug off) / empty (custom page itself fails, debug off) / built-in page (rendered differentially from default-error-page.tw with the failure's fields); debug off -> neither message nor any path in the body; debug on -> message, path and line in it. Non-trivial: failing page and a non-default configuration. Distinct by hash.")
 	defer c.Finish()
-	runRapid(t, c, 3000, 10000, func(rt *rapid.T) {
+	runRapid(t, c, 3000, 30000, func(rt *rapid.T) {
 		files, page, markers, fails, note := c17Page(rt)
 		cs := respCase{Files: files, Page: page, Markers: markers, Fails: fails, Note: note, Debug: rapid.Bool().Draw(rt, "debug"),
 			Custom: rapid.SampledFrom([]string{"none", "valid", "missing", "failing"}).Draw(rt, "custom"),
